@@ -647,6 +647,60 @@ func resizeHistorySweep(cfgName string, prof refterm.Profile) {
 	rec(nil)
 }
 
+// controlCellSweep: a cell whose grapheme is a lone control byte (a stray TAB, LF, BS, CR or ESC in text the
+// application printed; display width 0) shows as a blank and leaves its neighbours where they are - the byte must
+// never reach the terminal, which would execute it. Every C0 byte and DEL, at every column of a 4x2 screen,
+// drawn over an empty and over a painted screen, by Render and by Refresh.
+func controlCellSweep(cfgName string, prof refterm.Profile) {
+	for b := 0; b <= 0x20; b++ {
+		g := string(rune(b))
+		if b == 0x20 {
+			g = "\x7f"
+		}
+		for col := 0; col < 4; col++ {
+			for variant := 0; variant < 4; variant++ {
+				cfg := &config{Name: cfgName, Cols: 4, Rows: 2, Prof: prof}
+				w, err := open(cfg)
+				if err != nil {
+					r.Fault("session: %v", err)
+				}
+				win := w.s.Vx.Window()
+				row := func() {
+					for x := 0; x < 4; x++ {
+						for y := 0; y < 2; y++ {
+							c := vaxis.Cell{Character: ch(string(rune('a'+x+4*y)), 1), Style: vaxis.Style{Foreground: vaxis.IndexColor(uint8(1 + x))}}
+							win.SetCell(x, y, c)
+							w.m.SetCell(x, y, c)
+						}
+					}
+				}
+				if variant&1 != 0 {
+					row()
+					w.s.Vx.Render()
+				}
+				row()
+				st := vaxis.Style{Attribute: vaxis.AttrBold}
+				win.SetCell(col, 0, vaxis.Cell{Character: ch(g, 0), Style: st})
+				w.m.SetCell(col, 0, vaxis.Cell{Character: ch(" ", 1), Style: st})
+				fin := frame{Finish: variant / 2}
+				if fin.Finish == 0 {
+					w.s.Vx.Render()
+				} else {
+					w.s.Vx.Refresh()
+				}
+				r.Count("control_cells", 1)
+				if sig, why := w.check(fin, nil); sig != "" {
+					sig = strings.Replace(sig, "C01|", "C01|control-cell|", 1)
+					r.Violation(sig, b, map[string]any{"search": "control-cell", "profile": prof.String(), "cell": fmt.Sprintf("SetCell(%d,0,%q width 0)", col, g), "painted_before": variant&1 != 0, "finish": finishName(fin), "why": why})
+				} else {
+					r.Distinct(explore.Hash("control", cfgName, fmt.Sprint(b, col, variant)))
+				}
+				w.close()
+			}
+		}
+	}
+}
+
 // ---- main -----------------------------------------------------------------------------------
 
 func profiles() map[string]refterm.Profile {
@@ -760,6 +814,11 @@ func main() {
 					resizeHistorySweep(name, profiles()[name])
 				}
 			}
+			for i, name := range []string{"none", "all"} {
+				if (i+7)%n == idx {
+					controlCellSweep(name, profiles()[name])
+				}
+			}
 			r.WorkerDone()
 		}
 		r.Fault("unknown worker arg %q", arg)
@@ -782,7 +841,7 @@ func main() {
 	trans += r.Get("pen_pairs")
 	r.Finish(explore.Coverage{
 		States: states, Transitions: trans, Traces: trans, Evaluations: trans,
-		Rule:       "explicit-state BFS over (real Vaxis, reference terminal) pairs; transition = one frame (optional Clear/Fill, one SetCell/SetStyle/Print from a 12-cell alphabet, optional cursor request, then Render | Refresh | scramble+Refresh | resize); successor = replay of the frame path on a fresh session; state key = hash(renderer state dump, terminal dump, application record); plus a history-free sweep of ordered style pairs on a 2x1 screen. distinct = distinct canonical states + distinct style pairs that passed; large frames: a 100x40 screen with every cell styled (three style variants incl. RGB, styled underline and a hyperlink per cell; tens of kilobytes per frame), three Renders and three Refreshes per capability profile; resize histories: every sequence of up to three size changes over six sizes (heights and widths around 3x3) of a fully painted screen, one cell drawn after each - every other cell must be blank",
+		Rule:       "explicit-state BFS over (real Vaxis, reference terminal) pairs; transition = one frame (optional Clear/Fill, one SetCell/SetStyle/Print from a 12-cell alphabet, optional cursor request, then Render | Refresh | scramble+Refresh | resize); successor = replay of the frame path on a fresh session; state key = hash(renderer state dump, terminal dump, application record); plus a history-free sweep of ordered style pairs on a 2x1 screen. distinct = distinct canonical states + distinct style pairs that passed; large frames: a 100x40 screen with every cell styled (three style variants incl. RGB, styled underline and a hyperlink per cell; tens of kilobytes per frame), three Renders and three Refreshes per capability profile; resize histories: every sequence of up to three size changes over six sizes (heights and widths around 3x3) of a fully painted screen, one cell drawn after each - every other cell must be blank; control cells: a cell holding a lone C0 byte or DEL (width 0) at every column of a 4x2 screen, over an empty and a painted screen, by Render and Refresh, on two profiles - it shows as a blank and the byte never reaches the terminal",
 		Exhaustive: exhaustive,
 		Bounds:     bounds,
 		Assumptions: []string{
